@@ -76,9 +76,12 @@ EvCmd ==
             /\ ("sargv" \notin DOMAIN Ev)      \* the server executed exactly the request that was sent
             /\ ("unexecuted" \notin DOMAIN Ev) \* ... and it executed every request that was sent
             /\ ("aofpartial" \notin DOMAIN Ev)    \* the append-only file ends with a complete frame after every request
-            /\ IF "aof" \in DOMAIN Ev
-               THEN \E x \in AofStep(S, o.S, Ev.c, Ev.argv, Ev.aof, tm) : S' = x.S /\ devs' = devs \cup o.dv \cup x.dv
-               ELSE S' = o.S /\ devs' = devs \cup o.dv
+            (* a sequential recording (no server log) that waited for a blocking pop until it answered nil: the
+               time-out is part of this very event *)
+            /\ \E S3 \in (IF o.r.t = "blocks" /\ "sr" \notin DOMAIN Ev /\ Ev.r = RNilArr THEN TimedOut(o.S, Ev.c) ELSE {o.S}) :
+                 IF "aof" \in DOMAIN Ev
+                 THEN \E x \in AofStep(S, S3, Ev.c, Ev.argv, Ev.aof, tm) : S' = x.S /\ devs' = devs \cup o.dv \cup x.dv
+                 ELSE S' = S3 /\ devs' = devs \cup o.dv
 
 (* a request that got a reply although the server has no record of executing it: an `unlogged` event is
    only acceptable when the client never got an answer (the connection was closed first) *)
